@@ -82,34 +82,30 @@ def expected_paths(steps, entry, structs):
     return out
 
 
-def private_json(ctx, gens):
-    """The translator's JSON side copies, regenerated into this run's scratch directory
-    (build/gen is shared between concurrent runs, also with private worktrees)."""
-    import json
-    d = os.path.join(ctx.scratch, "genjson")
-    rc, out = ctx.run([os.path.join(vlib.BIN, "translator"), "-repo", vlib.REPO, "-out", os.path.join(ctx.scratch, "genv"),
-                       "-json", d] + list(gens), cwd=vlib.REPO, timeout=300)
-    if rc != 0:
-        ctx.broken("translator(%s)" % ",".join(gens), out[-800:])
-        return None, d
-    return {g: json.load(open(os.path.join(d, g + ".json"))) for g in gens}, d
+def gen_json(ctx, name, ok):
+    """JSON side copy of a generator (build/gen<PTAG>, private per worktree); None if the translator failed"""
+    if not ok:
+        return None
+    try:
+        return ctx.gen_json(name)
+    except Exception:
+        return None
 
 
 def run(ctx):
-    gen_ok = ctx.regen(["aststructs", "astwalk"])
+    gen_walk = gen_structs = ctx.regen(["aststructs", "astwalk"])
     ctx.prove("C18")
     model = ctx.model("c18")
     impl = ctx.harness("c18")
-    js, jdir = private_json(ctx, ["aststructs"])
-    if js is None:
+    structs = gen_json(ctx, "aststructs", True)
+    if structs is None:
         return
-    structs_path = os.path.join(jdir, "aststructs.json")
-    structs = js["aststructs"]
+    structs_path = os.path.join(vlib.BUILD, "gen" + vlib.PTAG, "aststructs.json")
     # if the Walk switch left the translated fragment the static table is missing: the run is already
     # broken, but the dynamic table, the model comparison and the direct oracle still search for a failing input
-    jw, _ = private_json(ctx, ["astwalk"])
+    jw = gen_json(ctx, "astwalk", gen_walk)
     static = {}
-    for case in (jw["astwalk"] if jw else []):
+    for case in (jw or []):
         for k in case["kinds"]:
             static[k] = case["steps"]
 
@@ -151,13 +147,14 @@ def run(ctx):
     cases = []
     for p in files:
         cases.append("file\t%s\t0" % p)
-        cases.append("file\t%s\t%d" % (p, 2 + ctx.rng.below(6)))
+        if not p.endswith(".go") or not ctx.quick:
+            cases.append("file\t%s\t%d" % (p, 2 + ctx.rng.below(6)))
     kinds = structs["node_order"]
     for k in kinds:
         for variant in ("full", "noopt", "rand:%d" % (ctx.seed * 1000 + 1), "rand:%d" % (ctx.seed * 1000 + 2)):
             for prune in (0, 3):
                 cases.append("kind\t%s\t%s\t%d" % (k, variant, prune))
-    nsynth = ctx.n(1500, 60000)
+    nsynth = ctx.n(700, 60000)
     for i in range(nsynth):
         seed = ctx.rng.next() % (1 << 62)
         depth = 1 + ctx.rng.below(4)
@@ -244,7 +241,7 @@ def run(ctx):
                    "(depth 1-4, 10%% malformed) + %d marker nodes for table learning; non-trivial = distinct (tree,prune) with an export longer than 40 bytes"
                    % (len(files), ",".join(EXTS), len(kinds), nsynth, nlearn),
               input_shape_histogram=hist, nodes_walked=nodes_total, marker_nodes=nlearn,
-              expected_panics_on_malformed=panics_expected, static_gen="ok" if gen_ok else "unparsed")
+              expected_panics_on_malformed=panics_expected, static_gen="ok" if (gen_walk and gen_structs) else "unparsed")
     ctx.trust("modelled, not verified: ast.Walk/ast.Inspect as the interpreter Model/C18.v:walk over the generated table "
               "(translator/gen_astwalk.go reads the switch; translator/gen_ast.go the struct declarations)",
               "harness/internal/astx: reflection export of trees, reflection-based child enumeration, tree synthesis")
